@@ -40,7 +40,7 @@ pub fn can_be_used(lhs: &Type, rhs: &Type) -> bool {
 pub fn exec(iter: Variable, function: Variable) -> ExecResult {
     let element = iter.as_type().return_type().unwrap();
     #[cfg(feature = "verif")]
-    let _helper = crate::verif::helper_scope();
+    let _helper = crate::verif::helper_scope("filter");
     let result = FILTER
         .exec_with_args(&[iter, function])?
         .into_function()
